@@ -199,6 +199,10 @@ func cmdRun(args []string) {
 	// orchestrator re-runs that case alone
 	curPath := *obsPath + ".cur"
 	cur, _ := os.Create(curPath)
+	caseTimeout := 10 * time.Second
+	if ct, ok := e.(interface{ caseTimeout() time.Duration }); ok {
+		caseTimeout = ct.caseTimeout()
+	}
 	for _, p := range payloads {
 		if cur != nil {
 			cur.Truncate(0)
@@ -212,7 +216,7 @@ func cmdRun(args []string) {
 				return ob
 			}
 			return e.run(p)
-		}, 10*time.Second)
+		}, caseTimeout)
 		if hasExtra {
 			fmt.Fprintf(rw, "%s\t%s\t%s\n", leanName, p, extra)
 		} else {
